@@ -113,7 +113,7 @@ def make_case(seed, index, tier):
             'nones': rng.random() < 0.25, 'early': rng.random() < 0.3,
             'odd': rng.random() < 0.25,
             # a clock that absorbs every delay of the scenario (one date, many batches)
-            'start': rng.choice([1.7e18, 2.0 ** 70]) if rng.random() < 0.05 and not burst else 0}
+            'start': rng.choice([1.7e18, 2.0 ** 70, -1.5, -1, -0.5]) if rng.random() < 0.09 and not burst else 0}
 
 
 class QueueChecker:
